@@ -103,3 +103,117 @@ Theorem null_value_put_refuted :
   ~ NoDup (map fst (fst (iterate (final_state idh N.eqb (create 16) os)))).
 Proof. exact null_value_refuted. Qed.
 Print Assumptions null_value_put_refuted.
+
+(* ------------------------------------------------------------------------------------------------------------------
+   The insert-only class {put_if_absent, get} under concurrency: micro-step machine Dict/Micro.v (one shared-memory
+   access per step; qt_lf_list_find's walk and qt_lf_list_insert's CAS loop as in the code), any number of tasks,
+   EVERY schedule.  [MicroProofs.Inv] is the invariant (global list facts + per-task facts about prev/cur/next/node);
+   [micro_init] shows it holds initially; [Micro.run] executes a schedule (list of task ids).
+   ------------------------------------------------------------------------------------------------------------------ *)
+From QV Require Import Dict.Micro Dict.MicroProofs Dict.MicroTheorems.
+
+Theorem micro_init :
+  forall (sof : N -> N) (progs : list (list mop)),
+  (forall p o, In p progs -> In o p -> op_start o = 0%nat /\ 0 < sof (op_key o) /\ op_key o <> 0) ->
+  MicroProofs.Inv sof (minit [(0, 0, 0)] progs).
+Proof. exact inv_init0. Qed.
+Print Assumptions micro_init.
+
+(* ... and for every well-formed initial state: a non-empty node list sorted by so_key, regular nodes carrying the so_key of
+   their key, one node per key, every operation starting at a node whose so_key is below its key's (its bucket's dummy).
+   The check evaluates this predicate on the real list dump of every replayed run. *)
+Theorem micro_init_general :
+  forall (sof : N -> N) (nodes : list (N * N * N)) (progs : list (list mop)),
+  (nodes <> [] /\
+   (forall i j, (i < j)%nat -> (j < length nodes)%nat -> nso nodes i <= nso nodes j) /\
+   (forall i, (i < length nodes)%nat -> nkey nodes i <> 0 -> nso nodes i = sof (nkey nodes i)) /\
+   (forall i j, (i < length nodes)%nat -> (j < length nodes)%nat -> nkey nodes i = nkey nodes j -> nkey nodes i <> 0 -> i = j) /\
+   (forall p o, In p progs -> In o p ->
+                (op_start o < length nodes)%nat /\ nso nodes (op_start o) < sof (op_key o) /\ op_key o <> 0)) ->
+  MicroProofs.Inv sof (minit nodes progs).
+Proof. exact inv_init. Qed.
+Print Assumptions micro_init_general.
+
+(* ins_inv: the list reachable from the head is always a NULL-terminated chain, duplicate-free, sorted by so_key, with at
+   most one node per key; every node that was ever linked stays reachable (nothing is lost) *)
+Theorem ins_inv :
+  forall (sof : N -> N) (keq : N -> N -> bool), (forall a b, keq a b = true <-> a = b) ->
+  forall (s0 : mstate) (sched : list nat), MicroProofs.Inv sof s0 ->
+  let s := Micro.run sof keq s0 sched in
+  let h := m_heap s in
+  islist h (Some 0%nat) (mlist s) /\ NoDup (mlist s) /\
+  StronglySorted (fun a b => so_of h a <= so_of h b) (mlist s) /\
+  (forall x, In x (mlist s) -> key_of h x <> 0 -> so_of h x = sof (key_of h x)) /\
+  (forall x y, In x (mlist s) -> In y (mlist s) -> key_of h x = key_of h y -> key_of h x <> 0 -> x = y) /\
+  incl (mlist s0) (mlist s).
+Proof. exact ins_inv_l. Qed.
+Print Assumptions ins_inv.
+
+(* pia_result: a completing put_if_absent(k,v) returns v exactly when its CAS linked its own node (k,v) right after p,
+   otherwise the value of a node of key k that is in the list (ins_inv: from then on) *)
+Theorem pia_result :
+  forall (sof : N -> N) (keq : N -> N -> bool), (forall a b, keq a b = true <-> a = b) ->
+  forall (s0 : mstate) (sched : list nat) (t : nat) (s' : mstate) (r k v : N) (st : nat) (rest : list mop) (th : thread),
+  MicroProofs.Inv sof s0 ->
+  let s := Micro.run sof keq s0 sched in
+  mstep sof keq s t = Some s' -> completes s t s' r ->
+  nth_error (m_thr s) t = Some th -> t_prog th = MPia k v st :: rest ->
+  (r = v /\ exists n l1 p l2, mlist s = l1 ++ p :: l2 /\ mlist s' = l1 ++ p :: n :: l2 /\ ~ In n (mlist s) /\
+                             key_of (m_heap s') n = k /\ val_of (m_heap s') n = v) \/
+  (mlist s' = mlist s /\ exists c, In c (mlist s) /\ key_of (m_heap s) c = k /\ r = val_of (m_heap s) c).
+Proof. exact pia_result_l. Qed.
+Print Assumptions pia_result.
+
+(* pia_unique: a put_if_absent links its node only if no node of the list carries the key; afterwards one does, for ever
+   (ins_inv), so of any number of racing put_if_absent of one key at most one links *)
+Theorem pia_unique :
+  forall (sof : N -> N) (keq : N -> N -> bool), (forall a b, keq a b = true <-> a = b) ->
+  forall (s0 : mstate) (sched : list nat) (t : nat) (s' : mstate) (r k v : N) (st : nat) (rest : list mop) (th : thread),
+  MicroProofs.Inv sof s0 ->
+  let s := Micro.run sof keq s0 sched in
+  mstep sof keq s t = Some s' -> completes s t s' r ->
+  nth_error (m_thr s) t = Some th -> t_prog th = MPia k v st :: rest ->
+  mlist s' <> mlist s ->
+  (forall x, In x (mlist s) -> key_of (m_heap s) x <> k) /\
+  (exists n, In n (mlist s') /\ key_of (m_heap s') n = k /\ val_of (m_heap s') n = v /\ r = v).
+Proof. exact pia_unique_l. Qed.
+Print Assumptions pia_unique.
+
+(* get_sound_partial: a completing get returns the value of a node of its key that is in the list, or NULL when at that
+   step no node of the list carries the key, or NULL after reading a NULL next pointer from the last node it examined
+   (every node up to it carries another key).  PARTIAL: for the last case "the key was absent at some moment during the
+   call" (true when that NULL is read) needs a history variable and is not derived. *)
+Theorem get_sound_partial :
+  forall (sof : N -> N) (keq : N -> N -> bool), (forall a b, keq a b = true <-> a = b) ->
+  forall (s0 : mstate) (sched : list nat) (t : nat) (s' : mstate) (r k : N) (st : nat) (rest : list mop) (th : thread),
+  MicroProofs.Inv sof s0 ->
+  let s := Micro.run sof keq s0 sched in
+  mstep sof keq s t = Some s' -> completes s t s' r ->
+  nth_error (m_thr s) t = Some th -> t_prog th = MGet k st :: rest ->
+  mlist s' = mlist s /\
+  ((exists c, In c (mlist s) /\ key_of (m_heap s) c = k /\ r = val_of (m_heap s) c) \/
+   (r = 0 /\ forall x, In x (mlist s) -> key_of (m_heap s) x <> k) \/
+   (r = 0 /\ exists p, t_pc th = PFindLoop None (Some p) None /\ In p (mlist s) /\
+                       key_of (m_heap s) p <> k /\ forall x, In x (pre (mlist s) p) -> key_of (m_heap s) x <> k)).
+Proof. exact get_sound_partial_l. Qed.
+Print Assumptions get_sound_partial.
+
+(* get_sound: a get(k) invoked in state s1 that completes with NULL after ANY schedule (same program position and result list
+   as right after the invocation, i.e. it is that very get) was invoked when no node of the list carried key k.  In this
+   class absence at any moment of the call is equivalent to absence at the invocation, so this is "NULL only if the key was
+   absent at some point during the call".  Values of nodes of key k are assumed non-NULL (NULL value = absent, see
+   null_value_put_refuted). *)
+From QV Require Import Dict.MicroHist.
+Theorem get_sound :
+  forall (sof : N -> N) (keq : N -> N -> bool), (forall a b, keq a b = true <-> a = b) ->
+  forall (s1 s1' : mstate) (sched : list nat) (t : nat) (s' : mstate) (k : N) (st : nat) (rest : list mop) (th1 th2 : thread),
+  MicroProofs.Inv sof s1 ->
+  nth_error (m_thr s1) t = Some th1 -> t_pc th1 = PIdle -> t_prog th1 = MGet k st :: rest ->
+  mstep sof keq s1 t = Some s1' ->
+  let s2 := Micro.run sof keq s1' sched in
+  nth_error (m_thr s2) t = Some th2 -> t_res th2 = t_res th1 -> t_prog th2 = MGet k st :: rest ->
+  mstep sof keq s2 t = Some s' -> completes s2 t s' 0 ->
+  (forall c, In c (mlist s2) -> key_of (m_heap s2) c = k -> val_of (m_heap s2) c <> 0) ->
+  forall x, In x (mlist s1) -> key_of (m_heap s1) x <> k.
+Proof. exact get_sound_l. Qed.
+Print Assumptions get_sound.
